@@ -1,7 +1,7 @@
 """C07 — JSON codec (see jsonfam.py and DESIGN.md §4.6-4.8)."""
 from . import jsonfam
 
-THEOREMS = ["Goag.JsonM.toJFields_names_declared", "Goag.JsonM.toJFields_required_present", "Goag.JsonM.toJFields_unset_omitted", "Goag.JsonM.toJFields_required_unset_fails", "Goag.JsonM.toJ_conforms", "Goag.JsonM.conf_all", "Goag.JsonM.toJ_null_only_if_nullable"]
+THEOREMS = ["Goag.JsonM.toJFields_names_declared", "Goag.JsonM.toJFields_required_present", "Goag.JsonM.toJFields_unset_omitted", "Goag.JsonM.toJFields_required_unset_fails", "Goag.JsonM.toJ_conforms", "Goag.JsonM.conf_all", "Goag.JsonM.toJ_null_only_if_nullable", "Goag.JsonM.toJ_conforms_oneOf"]
 RULE = "specs = random component sets: objects (1-4 properties of primitive / nullable primitive / $ref / inline array / inline object / untyped kind, required or optional, additionalProperties absent / true / schema), array components, allOf in every ref/inline member order, oneOf with discriminator (+mapping) and without; values = reflect-built from the schema (every optional subset, nulls where allowed, empty and nil collections, strings needing escapes, extreme numbers, zoned times, additional keys with quotes / backslashes / newlines / non-ASCII); documents = generated from the schema independently of goag (optional subsets, null where allowed, extra keys) + single-fault mutants (drop a required key, swap a value kind); distinct by (package, type, canonical JSON)"
 EXPLANATION = "theorem toJ_conforms: for leaf / array / object / map / allOf-of-plain-objects schemas of any depth, what the encoder model writes for a well-formed value satisfies the reference conforms (inside_proved_fragment counts the run's values in that fragment); encode: the canonical JSON tree of the generated MarshalJSON output is compared with the Lean model toJ and judged by the independent reference conforms (required present, unset optional omitted, null only where nullable, exactly the declared names unless additionalProperties, declared JSON kinds, allOf merged, map entries under their own keys); outputs that differ from the model are judged by the reference directly"
 ASSUMPTIONS = ["schemas non-recursive; property names free of quote / backslash / control characters", "oneOf without discriminator: every alternative has a required property of its own (unambiguous probing)",
